@@ -18,7 +18,7 @@ git apply $D/patch.diff || { echo "SEED $PROP/$N: patch does not apply"; exit 1;
 go build ./... >/tmp/build.out 2>&1; b=$?
 go test -count=1 ./... >/tmp/test.out 2>&1; t=$?
 with=$(run_demo)
-chk=$(/verif/bin/crdcheck -p $PROP -repo "$WT" -noevidence 2>&1 | grep '^FINDING' | sed 's/.*rule=\([A-Z0-9-]*\).*construct="\([^"]*\)".*/\1:\2/' | sort -u | tr '\n' ' ')
-all=$(/verif/bin/crdcheck -p all -repo "$WT" -noevidence 2>&1 | grep '^FINDING' | sed 's/.*property=\(C[0-9]*\) rule=\([A-Z0-9-]*\).*/\1:\2/' | sort -u | tr '\n' ' ')
+chk=$(${CRDCHECK:-/verif/bin/crdcheck} -p $PROP -repo "$WT" -noevidence 2>&1 | grep '^FINDING' | sed 's/.*rule=\([A-Z0-9-]*\).*construct="\([^"]*\)".*/\1:\2/' | sort -u | tr '\n' ' ')
+all=$(${CRDCHECK:-/verif/bin/crdcheck} -p all -repo "$WT" -noevidence 2>&1 | grep '^FINDING' | sed 's/.*property=\(C[0-9]*\) rule=\([A-Z0-9-]*\).*/\1:\2/' | sort -u | tr '\n' ' ')
 git checkout -q -- .
 echo "SEED $PROP/$N: build=$b tests=$t demo(without)=$base demo(with)=$with | $PROP findings: ${chk:-NONE} | all: ${all:-NONE}"
